@@ -95,7 +95,8 @@ func (p *c20) Cases(tier string, emit func(interface{})) {
 	emit(c20Case{Part: "race"})
 }
 
-const c20Data = `{"top":"t","c":{"gl":5,"gc":{"gx":"abc"},"idr":"id-b","e":"two","w":"shown","ca1":"x","un":5,"bits":"x","lr":"two","dec":1.5,"em":[null],"bin":"AQID","u64":"18446744073709551615","les":["one","two"]},"l":[{"k":"a","v":1,"gl":9,"n":[{"j":1,"u":"a"},{"j":2,"u":"b"}]},{"k":"b","gc":{"gx":"z"}}],"ll":["p","q"]}`
+// string values hold characters every writer has to escape (quote, backslash, markup, control, non-ASCII)
+const c20Data = `{"top":"t\"q\\b<&>\u00e9\n\u2028","c":{"gl":5,"gc":{"gx":"abc"},"idr":"id-b","e":"two","w":"shown","ca1":"x","un":5,"bits":"x","lr":"two","dec":1.5,"em":[null],"bin":"AQID","u64":"18446744073709551615","les":["one","two"]},"l":[{"k":"a","v":1,"gl":9,"n":[{"j":1,"u":"a"},{"j":2,"u":"b"}]},{"k":"b","gc":{"gx":"z"}}],"ll":["p","q\"<\u00e9>"]}`
 
 const c20LoadText = `module ld { yang-version 1.1; namespace "urn:ld"; prefix ld; import dep { prefix d; } include sub; revision 0;
   feature f; grouping g { leaf a { type d:dt; } container c { leaf b { type string; } } }
